@@ -17,6 +17,7 @@ EXPLANATION = ("Abstract interpretation of BaseWorkflow.check_state (helpers inl
                "decision table of BaseTask.record_state; guard test of BaseTask.initialize.")
 ASSUMPTIONS = ["users do not subclass model classes or assign task.state themselves during a run",
                "FINISHED is absorbing because R1.1 finds no writer that leaves it"]
+EXHAUSTIVE = True  # the deciding tables range over the complete finite domain
 TECHNIQUE = "typestate + finite-domain guard tables by abstract interpretation of the AST (no execution)"
 
 
